@@ -51,16 +51,29 @@ pub struct Proc {
     pub timed_out: bool,
 }
 
-pub fn run_cli(args: &[String], cwd: &Path) -> Result<Proc, String> {
+pub fn run_cli<S: AsRef<std::ffi::OsStr>>(args: &[S], cwd: &Path) -> Result<Proc, String> {
+    run_cli_stdin(args, cwd, None)
+}
+
+/// `stdin`: bytes piped to the child's standard input (then closed); None: /dev/null
+pub fn run_cli_stdin<S: AsRef<std::ffi::OsStr>>(args: &[S], cwd: &Path, stdin: Option<Vec<u8>>) -> Result<Proc, String> {
     let mut child = Command::new(cli_path())
         .args(args)
         .current_dir(cwd)
-        .stdin(Stdio::null())
+        .stdin(if stdin.is_some() { Stdio::piped() } else { Stdio::null() })
         .stdout(Stdio::piped())
         .stderr(Stdio::piped())
         .env("NO_COLOR", "1")
         .spawn()
         .map_err(|e| format!("cannot spawn the CLI: {}", e))?;
+    if let Some(data) = stdin {
+        if let Some(mut pipe) = child.stdin.take() {
+            std::thread::spawn(move || {
+                use std::io::Write;
+                let _ = pipe.write_all(&data);
+            });
+        }
+    }
     let t0 = Instant::now();
     let mut timed_out = false;
     loop {
@@ -400,7 +413,15 @@ pub fn eval_mux(c: &MuxCase) -> Outcome {
         args.push(l.clone());
     }
     args.extend(extra);
-    let p = match run_cli(&args, &dir) {
+    // a fifth of the valid cases read the video input from a pipe (/dev/stdin): a readable input that can be read only once
+    let piped = c.invalid == 0 && c.frame_size % 5 == 3 && std::path::Path::new("/dev/stdin").exists();
+    if piped {
+        if let Some(i) = args.iter().position(|a| a == "--video") {
+            args[i + 1] = "/dev/stdin".into();
+        }
+        o.class("video_input_from_pipe");
+    }
+    let p = match run_cli_stdin(&args, &dir, if piped { Some(vtext.as_bytes().to_vec()) } else { None }) {
         Ok(p) => p,
         Err(e) => {
             o.unconstrained.push(format!("spawn problem: {}", e));
@@ -723,9 +744,20 @@ pub fn eval_info(c: &InfoInput) -> Outcome {
             (b, false)
         }
     };
-    let path = dir.join("in.mp4");
-    let _ = std::fs::write(&path, &bytes);
-    let args: Vec<String> = vec!["--json".into(), "info".into(), path.to_string_lossy().to_string()];
+    // file names: plain ASCII, non-ASCII UTF-8, and (a legal Unix file name) bytes that are not UTF-8 at all
+    use std::os::unix::ffi::OsStrExt;
+    let name: &[u8] = match bytes.len() % 4 {
+        0 => b"vid\xe9o-latin1.mp4",
+        1 => "vid\u{e9}o \u{65e5}\u{672c}.mp4".as_bytes(),
+        _ => b"in.mp4",
+    };
+    let mut path = dir.join(std::ffi::OsStr::from_bytes(name));
+    if std::fs::write(&path, &bytes).is_err() {
+        // a file system that refuses such names
+        path = dir.join("in.mp4");
+        let _ = std::fs::write(&path, &bytes);
+    }
+    let args: Vec<std::ffi::OsString> = vec!["--json".into(), "info".into(), path.clone().into_os_string()];
     match run_cli(&args, &dir) {
         Err(e) => o.unconstrained.push(format!("spawn problem: {}", e)),
         Ok(p) => {
